@@ -115,9 +115,4 @@ def run(rep, info, model, tier, seed):
 
 
 def replay(body):
-    sc = fam.unjson_sc(body["scenario"])
-    r = simnet.run_impl(sc)
-    ok = (r.sock is None or r.sock.closed) and (r.selector is None or r.selector.closed)
-    print("socket closed:", None if r.sock is None else r.sock.closed, "selector closed:", None if r.selector is None else r.selector.closed)
-    print("REPLAY:", "property holds on this input" if ok else "VIOLATION reproduced")
-    return 0 if ok else 1
+    return fam.replay_generic(body, {"C13:abandon-at-every-event": oracle})
